@@ -76,14 +76,14 @@ Order(kids, todo) ==
 (* landed cell is this surface's own exactly when it landed as well).       *)
 PaintOwn(grid, s, stack) ==
   LET n == ImplLen(s.w, s.h)
-      land == [i \in 0..(n - 1) |-> Land(stack, Len(stack), i % s.w, i \div s.w, BufCell(s, i).w)]
-      landed == {land[i] : i \in 0..(n - 1)} \ {<<>>}
+      buf == [i \in 0..(n - 1) |-> BufCell(s, i)]
+      land == [i \in 0..(n - 1) |-> Land(stack, Len(stack), i % s.w, i \div s.w, buf[i].w)]
+      landed == {land[i] : i \in 0..(n - 1)}
   IN [p \in DOMAIN grid |->
-        LET src == {i \in 0..(n - 1) : land[i] = p}
-        IN IF src # {} THEN BufCell(s, CHOOSE i \in src : TRUE)
-           ELSE IF WideFix /\ grid[p].w > 1 /\ <<p[1] + 1, p[2]>> \in landed
-                THEN [g |-> 0, fg |-> grid[p].fg, w |-> 1]
-           ELSE grid[p]]
+        IF p \in landed THEN buf[CHOOSE i \in 0..(n - 1) : land[i] = p]
+        ELSE IF WideFix /\ grid[p].w > 1 /\ <<p[1] + 1, p[2]>> \in landed
+             THEN [g |-> 0, fg |-> grid[p].fg, w |-> 1]
+        ELSE grid[p]]
 
 RECURSIVE Render(_, _, _), RenderKids(_, _, _, _)
 Render(grid, s, stack) == RenderKids(PaintOwn(grid, s, stack), s, stack, Order(s.kids, 1..Len(s.kids)))
